@@ -9,6 +9,7 @@ import (
 	"errors"
 	"fmt"
 	"io"
+	"math/big"
 	"os"
 	"runtime"
 	"runtime/debug"
@@ -143,6 +144,19 @@ func refHook(spec string, log *[]any) (func(any) *og.Ref, error) {
 	case "B":
 		// string ids that are not valid UTF-8 (8-byte binary oids kept in a Go string)
 		return mk(func(n int) *og.Ref { return &og.Ref{Pid: "i\xe9d" + strconv.Itoa(n)} }), nil
+	case "G":
+		// a hook that maps EVERY kind of pointer-to-struct it is shown: application objects, and the library's own struct
+		// types when held by pointer (*big.Int)
+		return func(obj any) *og.Ref {
+			*log = append(*log, obj)
+			switch x := obj.(type) {
+			case *UserObj:
+				return &og.Ref{Pid: "id" + strconv.Itoa(x.N)}
+			case *big.Int:
+				return &og.Ref{Pid: "big:" + x.String()}
+			}
+			return nil
+		}, nil
 	case "T":
 		return mk(func(n int) *og.Ref { return &og.Ref{Pid: og.Tuple{"cls", int64(n)}} }), nil
 	case "N":
